@@ -279,6 +279,8 @@ def format_value(interp, v, spec=""):
         return interp.py_str(v)
     if isinstance(v, (AnyOf, SText)):
         return OPAQUE
+    if isinstance(v, sym.SFloat):
+        return interp.native(format, v, spec)
     if isinstance(spec, str) and OPAQUE in spec:
         return OPAQUE
     if is_sym(v):
